@@ -777,11 +777,16 @@ type c27Opts struct {
 	race   bool // no gate, several attempts, only the running-set oracle
 	maxLen func(tier string) int
 	stop   bool // the second configuration may be "stop"
+	wide   int  // >0: the wide universe (see c27WideSetup) with that many links in the quick tier; cases are its transition pairs
 }
 
 const c27RaceAttempts = 4
 
 func c27Cases(tier string, o c27Opts) int {
+	if o.wide > 0 {
+		_, _, pairs := c27Wide(c27WideLinks(tier, o))
+		return len(pairs)
+	}
 	n := c27N(tier)
 	if o.stop {
 		return n * (n + 1)
@@ -791,6 +796,12 @@ func c27Cases(tier string, o c27Opts) int {
 
 func c27RunWith(o c27Opts) func(x *explore.Ctx) {
 	return func(x *explore.Ctx) {
+		if o.wide > 0 {
+			links, alpha, _ := c27Wide(c27WideLinks(x.Tier, o))
+			oldL, oldA := c27Links, c27Alphabet
+			c27Links, c27Alphabet = links, alpha
+			defer func() { c27Links, c27Alphabet = oldL, oldA }()
+		}
 		restore := gpcapture.VerifSetHostLinks(func(...string) (link.Links, error) {
 			var ls link.Links
 			for _, l := range c27Links {
@@ -869,6 +880,11 @@ func c27Body(x *explore.Ctx, e *c27Env, o c27Opts) {
 		second = n + 1
 	}
 	c1, c2 := x.Case/second, x.Case%second
+	if o.wide > 0 {
+		_, _, pairs := c27Wide(c27WideLinks(x.Tier, o))
+		c1, c2 = pairs[x.Case][0], pairs[x.Case][1]
+		n = len(c27Alphabet)
+	}
 	var cm *gpcapture.Manager
 	for step := 0; step < maxLen; step++ {
 		e.mu.Lock()
@@ -1189,6 +1205,84 @@ func c27CheckClosed(x *explore.Ctx, e *c27Env, s *c27Source, reason, where strin
 	return true
 }
 
+// ---------------------------------------------------------------- wide universe
+
+func c27WideLinks(tier string, o c27Opts) int {
+	if tier == "thorough" {
+		return o.wide + 1
+	}
+	return o.wide
+}
+
+type c27WideSet struct {
+	links []string
+	alpha []c27Def
+	pairs [][2]int
+}
+
+var c27WideCache = map[int]*c27WideSet{}
+
+// c27Wide builds, for nl host links eth0..eth<nl-1>, every single reconfiguration in which each link
+// independently stays absent / is added / is removed / is kept / has a parameter changed (5^nl
+// transitions, without those whose first or second configuration is empty). Configurations name
+// their interfaces explicitly; the alphabet is the set of configurations these transitions use.
+func c27Wide(nl int) ([]string, []c27Def, [][2]int) {
+	if w, ok := c27WideCache[nl]; ok {
+		return w.links, w.alpha, w.pairs
+	}
+	w := &c27WideSet{}
+	for i := 0; i < nl; i++ {
+		w.links = append(w.links, fmt.Sprintf("eth%d", i))
+	}
+	index := map[string]int{}
+	intern := func(entries []c27Entry) int {
+		var nm []string
+		for _, e := range entries {
+			if e.par == c27D {
+				nm = append(nm, e.key)
+			} else {
+				nm = append(nm, e.key+":"+c27ParNames[e.par])
+			}
+		}
+		name := "{" + strings.Join(nm, ",") + "}"
+		if i, ok := index[name]; ok {
+			return i
+		}
+		index[name] = len(w.alpha)
+		w.alpha = append(w.alpha, c27Def{name: name, entries: entries})
+		return len(w.alpha) - 1
+	}
+	total := 1
+	for i := 0; i < nl; i++ {
+		total *= 5
+	}
+	for code := 0; code < total; code++ {
+		var a, b []c27Entry
+		c := code
+		for i := 0; i < nl; i++ {
+			switch c % 5 {
+			case 1: // added
+				b = append(b, c27Entry{w.links[i], c27D})
+			case 2: // removed
+				a = append(a, c27Entry{w.links[i], c27D})
+			case 3: // kept
+				a = append(a, c27Entry{w.links[i], c27D})
+				b = append(b, c27Entry{w.links[i], c27D})
+			case 4: // parameter change
+				a = append(a, c27Entry{w.links[i], c27D})
+				b = append(b, c27Entry{w.links[i], c27P})
+			}
+			c /= 5
+		}
+		if len(a) == 0 || len(b) == 0 {
+			continue
+		}
+		w.pairs = append(w.pairs, [2]int{intern(a), intern(b)})
+	}
+	c27WideCache[nl] = w
+	return w.links, w.alpha, w.pairs
+}
+
 const c27Alpha = "{eth0}, {eth0,eth1}, {/eth.*/}, {/eth.*/ + /.*0/:promisc}, {/eth.*/ + eth1:ring}, {eth0 + eth1:disable}, {eth0:promisc}, {eth0:ring}, {eth0:ignore-vlans}, {eth0:bpf}, autodetect -lo, {/eth.*/ + eth1:disable}, {eth1,lo} (thorough adds autodetect -/.*1/, {/eth.*/:ignore-vlans + /.*0/:bpf}, {/.*/ + /eth1/:disable}, {eth0 + /.*1/:disable}) on host links eth0, eth1, lo"
 
 func init() {
@@ -1209,6 +1303,15 @@ func init() {
 		Cases: func(t string) int { return c27Cases(t, main) },
 		Bound: func(t string) int { return 0 },
 		Run:   c27RunWith(main), Setup: c27Setup, PanicSig: "panic",
+		Assumptions: assume,
+	})
+	wide := c27Opts{gate: true, maxLen: func(string) int { return 2 }, wide: 6}
+	register("C27.wide", &explore.Scenario{
+		ID: "C27", Name: "single reconfigurations over a wide interface universe: every per-interface transition combination", Level: "model_checking",
+		Rule:  "host links eth0..eth5 (thorough eth0..eth6); cases = every reconfiguration A -> B in which each link independently {stays absent, is added, is removed, is kept, changes a parameter (promisc)}: 5^6 = 15625 (thorough 5^7 = 78125) transitions minus those with an empty A or B, interfaces named explicitly; default traffic before and after the update. " + oracle,
+		Cases: func(t string) int { return c27Cases(t, wide) },
+		Bound: func(t string) int { return 0 },
+		Run:   c27RunWith(wide), Setup: c27Setup, PanicSig: "panic",
 		Assumptions: assume,
 	})
 	traffic := c27Opts{gate: true, maxLen: lenTraffic, stop: true}
